@@ -660,6 +660,9 @@ func init() {
 			}
 		}
 		dd, dr := disguiseScenarios(o.seed)
+		if err := writeLinkCases(o.out, "C04"); err != nil {
+			return err
+		}
 		return finishWorlds(o, "C04", worlds, labels, st, 16, map[string]any{"direct_violations": dd, "disguised_token_runs": dr,
 			"direct_oracle": "tokens presented under a link that is not the CID of their bytes (another token's link; raw / CIDv0 / dag-json re-labelling) contribute nothing"})
 	}
@@ -811,6 +814,9 @@ func init() {
 			return err
 		}
 		dd, dr := disguiseScenarios(o.seed + 1)
+		if err := writeLinkCases(o.out, "C05"); err != nil {
+			return err
+		}
 		return finishWorlds(o, "C05", worlds, labels, st, 16, map[string]any{"worlds_also_run_through_server": len(bcases), "revocation_histories_on_one_server": nhist,
 			"direct_violations": dd, "disguised_token_runs": dr,
 			"direct_oracle": "a revoked delegation stays revoked under every re-labelling of its root block (raw / CIDv0 / dag-json CID over the same multihash)"})
